@@ -18,6 +18,7 @@ import (
 	"errors"
 	"fmt"
 	"io"
+	"strings"
 	"sync"
 	"time"
 
@@ -33,6 +34,10 @@ import (
 // v6Latency is the fake time every answer (and every refused dial) takes. It is what makes
 // the retry loop of the getter consume time: deadlines are placed between multiples of it.
 const v6Latency = time.Second
+
+// v6PartialGap is the fake time between the last byte of a transfer that dies midway and its reset
+// (1.1s per such answer: three of them plus an honest one still end before the 3.5s deadline).
+const v6PartialGap = 100 * time.Millisecond
 
 var v6Loopback = ma.StringCast("/ip4/127.0.0.1/tcp/4001")
 
@@ -224,6 +229,14 @@ func (s *v6Stream) deliver(b []byte, honest bool) {
 	if honest {
 		s.honestLen = len(b)
 	}
+	s.signal()
+	s.mu.Unlock()
+}
+
+// deliverPartial hands bytes to the client without ending the stream.
+func (s *v6Stream) deliverPartial(b []byte) {
+	s.mu.Lock()
+	s.in = append(s.in, b...)
 	s.signal()
 	s.mu.Unlock()
 }
@@ -439,6 +452,28 @@ func (w *v6World) endpoint(s *v6Stream) {
 	case "ratelimit":
 		s.resetRemote(network.StreamRateLimited)
 	default:
+		if k, isPart := v6PartialOf(ans); isPart {
+			b, ok := w.tab[key]["part:"+k]
+			if !ok {
+				w.fail("no partial bytes prepared for request %s answer %s", key, ans)
+				s.resetRemote(0)
+				return
+			}
+			s.deliverPartial(b)
+			// fake time only moves once the client has consumed the bytes and blocks on the stream again
+			if !w.pause(s, v6PartialGap) {
+				return
+			}
+			if strings.HasPrefix(ans, "pr:") {
+				s.resetRemote(0)
+				return
+			}
+			select { // "ph": silence until the client gives up
+			case <-s.gone:
+			case <-w.done:
+			}
+			return
+		}
 		b, ok := w.tab[key][ans]
 		if !ok {
 			w.fail("no bytes prepared for request %s answer %s", key, ans)
